@@ -170,6 +170,12 @@ Proof.
   rewrite wire_is_newlines. unfold ka_trace. rewrite pings_eq_ticks. reflexivity.
 Qed.
 
+(* ... and that byte is a whitespace keep-alive in the sense of the property (a non-empty run
+   of XML white space): the class the correspondence compares, whatever the byte. *)
+Theorem C18_ping_is_whitespace : forall r,
+  is_keepalive_payload (fst (xmpp_ping r)) = true /\ is_keepalive_payload stream_close_data = false.
+Proof. intros r. split; reflexivity. Qed.
+
 (* Environment level.  After quit has been closed the loop can still ping only for the
    tick pending at that moment and for later fires... *)
 Theorem C18_late_pings_bounded : forall fail np pending evs,
@@ -227,6 +233,7 @@ Print Assumptions C18_after_quit_silent.
 Print Assumptions C18_stopped_silent.
 Print Assumptions C18_stops_iff.
 Print Assumptions C18_ping_content.
+Print Assumptions C18_ping_is_whitespace.
 Print Assumptions C18_late_pings_bounded.
 Print Assumptions C18_quit_seen_at_once.
 Print Assumptions C18_no_quit_before_close.
